@@ -5,10 +5,14 @@
 EXTENDS Naturals, Sequences, TLC, Json
 VARIABLES hist
 C2(n, a, b) == [req |-> "create2", n |-> n, t1 |-> a, t2 |-> b]
+I2(n, a, b) == [req |-> "ingest2", n |-> n, t1 |-> a, t2 |-> b]
 Workloads == { << C2(1, "a1", "a2") >>,
                << C2(1, "a1", "a2"), [req |-> "delete", n |-> 2, row |-> "b3"], [req |-> "update", n |-> 3, row |-> "b2", text |-> "b2new"] >>,
                << [req |-> "unref", n |-> 1], C2(2, "a1", "a2"), [req |-> "compute", n |-> 3], [req |-> "update", n |-> 4, row |-> "b3", text |-> "b3new"] >>,
-               << [req |-> "delete", n |-> 1, row |-> "b1"], C2(2, "c1", "c2"), C2(3, "d1", "d2") >> }
+               << [req |-> "delete", n |-> 1, row |-> "b1"], C2(2, "c1", "c2"), C2(3, "d1", "d2") >>,
+               \* synchronised batches (rows and a deletion record received from a peer) mixed with local writes
+               << I2(1, "e1", "e2"), [req |-> "update", n |-> 2, row |-> "b2", text |-> "b2new"] >>,
+               << C2(1, "a1", "a2"), [req |-> "ingestdel", n |-> 2, row |-> "b3"], I2(3, "e1", "e2") >> }
 Faults == {[point |-> "none", hit |-> 0, kind |-> "none"]}
           \cup {[point |-> p, hit |-> h, kind |-> "abort"] : p \in {"batch.begin", "stmt.before", "node.write", "marks.before", "commit.before", "commit.after", "ack.before"}, h \in 1..3}
           \cup {[point |-> p, hit |-> h, kind |-> "error"] : p \in {"node.write", "marks.write", "commit.before"}, h \in 1..3}
